@@ -15,6 +15,8 @@ import (
 // included) before the call is found to have the wrong number of them. Steps separated by " | "
 // are separate evaluations on one interpreter; ERR stands for any error.
 var c02Fixed = []struct{ prog, want, trace string }{
+	// lists are compared along their length, however long; only nesting is bounded
+	{"(defn mk [n] (let [l (list)] (for [(def i 0) (< i n) (def i (+ i 1))] (set l (cons i l))) l)) (def a (mk 10400)) (def b (mk 10400)) (list (== a b) (== a (cons 1 b)) (< (cons 0 a) (cons 1 b)))", "(true false true)", ""},
 	// the empty list is a list: map and apply over an empty variadic tail
 	{"(defn f [& r] (map (fn [x] (* x 2)) r)) (list (f) (f 1 2))", "(nil (2 4))", ""},
 	{"(defn g [& r] (apply (fn [& q] (len q)) r)) (list (g) (g 1 2))", "(0 2)", ""},
